@@ -459,7 +459,17 @@ class Interp:
     def e_BinOp(self, node, fr):
         a = self.eval(node.left, fr)
         b = self.eval(node.right, fr)
-        return self.binop_result(a, b, node.op, node)
+        r = self.binop_result(a, b, node.op, node)
+        # longitude range idioms:  (x + 180) % 360 - 180  -> norm ;  x % 360 / x % (2*pi) -> pos
+        if isinstance(node.op, ast.Sub) and isinstance(node.left, ast.BinOp) and isinstance(node.left.op, ast.Mod):
+            m = node.left
+            if norm(node.right) in ("180", "180.0") and norm(m.right) in ("360", "360.0") and isinstance(m.left, ast.BinOp) \
+                    and isinstance(m.left.op, ast.Add) and norm(m.left.right) in ("180", "180.0"):
+                inner = self.eval_quiet(m.left.left, fr) or TOP
+                return r.with_(rng="norm", unit=inner.unit or r.unit, role=inner.role or r.role)
+        if isinstance(node.op, ast.Mod) and norm(node.right) in FULL_TURN:
+            return r.with_(rng="pos")
+        return r
 
     def binop_result(self, a: AV, b: AV, op, node):
         # constants
@@ -875,6 +885,8 @@ class Interp:
                       kind="str" if isinstance(d.value, str) else None)
         return TOP
 
+
+FULL_TURN = ("360", "360.0", "2 * np.pi", "2.0 * np.pi", "np.pi * 2", "2 * math.pi", "2 * pi", "2.0 * pi")
 
 DS_METHODS = {
     "rename", "isel", "sel", "swap_dims", "drop_vars", "set_coords", "rename_dims", "rename_vars", "copy", "assign_attrs",
